@@ -1,10 +1,11 @@
 # Build of the simulation harness against the CURRENT /repo working tree.
+# -DNDEBUG: as in the pinned build of /repo (RelWithDebInfo), crab's internal asserts are off.
 # Every object depends (through -MMD) on the crab headers it includes, so any
 # edit under /repo rebuilds exactly what it touches.
 REPO ?= /repo
 B    ?= build
 CXX  ?= g++
-CXXFLAGS ?= -std=c++14 -O1 -g -w -DCRAB_VERIF_SIM -I$(REPO)/include -Isim/inc
+CXXFLAGS ?= -std=c++14 -O1 -g -w -DNDEBUG -DCRAB_VERIF_SIM -I$(REPO)/include -Isim/inc
 LDLIBS = -lgmpxx -lgmp
 
 LIB_SRCS := $(wildcard $(REPO)/lib/*.cpp)
